@@ -14,6 +14,10 @@ ops (one per line)
   searchs c thr sq h1 h2 ...      the same with a query of scaled sq (finer: find downsamples the query; coarser: find
                                   downsamples every leaf and scores internal nodes with size 1); c = 0 Jaccard,
                                   1 containment, 2 max containment
+  saveas sp seed fmt              save(sparseness=sp/1000) to ANOTHER location (fmt 0 zip, 1 FS, 2 FS in a nested directory) and
+                                  keep using the tree in memory
+  checksaved cache                load the copy written by the last saveas (cache_size=cache or None) and walk it like `dump`;
+                                  the tree in use is not replaced
   select ksize scaled cont        tree.select(ksize=, scaled=, containment=)  -> ok | err ValueError
   (saveload: ver 1 and 2 are the legacy containers -- list / dict of relative file names, no factory or storage
    record, no metadata on internal nodes, root filter file uncompressed; generated with sparseness 0 and table
@@ -190,6 +194,32 @@ def gen_case(rng, flavour, thorough=False):
                 lines.append("dump")
         lines.append("dump")
         return lines
+    if flavour == "resave":
+        # load from disk, insert, save to another location, keep using the tree in memory (with unloads / cache
+        # evictions in between), and look at the saved copy as well
+        sp0 = rng.choice([0, 0, 0, 0, 300, 1000])
+        lines.append(f"saveload {sp0} {rng.randint(0, 999)} {rng.choice([6, 6, 6, 5, 4])} {rng.choice([0, 1, 2, 1, 2, 5])}")
+        if rng.random() < 0.5:
+            lines.append(_query(rng, pool, sketches, st))
+        for _ in range(rng.randint(1, 4)):
+            ins()
+        if rng.random() < 0.4:
+            lines.append(_query(rng, pool, sketches, st))
+        for rnd in range(rng.choice([1, 1, 2])):
+            lines.append(f"saveas {rng.choice([0, 0, 0, 500, 1000])} {rng.randint(0, 999)} {rng.randint(0, 2)}")
+            for _ in range(rng.randint(2, 3)):
+                lines.append(_query(rng, pool, sketches, st))
+                if rng.random() < 0.6:
+                    lines.append("dump")
+            lines.append("dump")
+            lines.append(f"checksaved {rng.choice([0, 1, 2])}")
+            if rng.random() < 0.5:
+                ins()
+                lines.append(_query(rng, pool, sketches, st))
+                lines.append("dump")
+        if rng.random() < 0.3:
+            lines.append("probe " + " ".join(str(h) for h in rng.sample(pool, min(len(pool), 6))))
+        return lines
     if flavour in ("insert", "small", "big") and rng.random() < 0.6:
         lines.append("dump")
         return lines
@@ -268,6 +298,8 @@ def context(case, upto):
         return "insert-only"
     if int(case[saves[-1]].split()[3]) <= 2:
         return "legacy-load"
+    if any(l.startswith("saveas") for l in case[saves[-1] + 1: upto + 1]):
+        return "after-save-elsewhere"
     sparse = any(int(case[k].split()[1]) > 0 for k in saves)
     if any(l.startswith("ins") for l in case[saves[0] + 1: upto + 1]):
         return "insert-after-sparse-load" if sparse else "insert-after-full-load"
@@ -308,12 +340,15 @@ def oracle(case, impl):
             inserted = {}
         elif w[0] == "ins" and obs.startswith("ok"):
             inserted[int(w[1])] = [int(x) for x in w[2:] if int(x) <= max_hash(st)]
-        elif w[0] == "dump" and d is not None:
+        elif w[0] in ("dump", "checksaved") and d is not None:
             ent = parse_dump(obs)
+            saved_copy = w[0] == "checksaved"
+            if saved_copy and not inserted and obs.startswith("err ValueError"):
+                continue            # an empty tree cannot be loaded ("Empty tree!")
             if ent is None:
-                out.append((k, "C13:dump-failed:" + context(case, k), f"walking the tree raised: {obs}"))
+                out.append((k, "C13:dump-failed:" + ("saved-copy" if saved_copy else context(case, k)), f"walking the tree raised: {obs}"))
                 continue
-            ctx = context(case, k)
+            ctx = "saved-copy" if saved_copy else context(case, k)
             leaves = {p: e for p, e in ent.items() if "L" in e["kinds"]}
             # structure
             ids = sorted(e["id"] for e in leaves.values())
